@@ -115,7 +115,7 @@ def check_nested(idx: Index, rep: Report) -> None:
 
 def check_nearest(idx: Index, rep: Report) -> None:
     r = rep.rule("C29.R2", "'nearest symbol table' is the first operation with the trait on the parent chain, starting with the operation itself", floor=2)
-    for mod, q, var in ((UT, "SymbolTable.get_nearest_symbol_table", None), (TR, "SymbolTable.lookup_symbol", "anchor")):
+    for mod, q, var in ((UT, "SymbolTable.get_nearest_symbol_table", None), (TR, "SymbolTable.lookup_symbol", None)):
         f = idx.func(mod, q)
         cfg = CFG(f.node)
         ws = [w for w in walk_local(f.node) if isinstance(w, ast.While)]
@@ -146,8 +146,10 @@ def check_nearest(idx: Index, rep: Report) -> None:
                 continue
             raise AnalysisError(f"{f.fq}: parent walk not found")
         w = ws[0]
+        # the walking variable: the local the loop re-binds (and tests)
+        rebound = [s_.targets[0].id for s_ in walk_local(w) if isinstance(s_, ast.Assign) and len(s_.targets) == 1 and isinstance(s_.targets[0], ast.Name)]
         names = [n.id for n in ast.walk(w.test) if isinstance(n, ast.Name) and n.id not in ("SymbolTable", "traits")]
-        v = var or names[0]
+        v = var or next((n_ for n_ in names if n_ in rebound), names[0])
         start = f.node.args.args[0].arg
         init = [val for nid, val in reaching_defs(cfg, v, cfg.node_of(w.test)) if val is not None and nid not in {cfg.node_of(s) for s in ast.walk(w) if isinstance(s, ast.stmt) and s is not w}]
         adv = [s for s in walk_local(w) if isinstance(s, ast.Assign) and unparse(s.targets[0]) == v]
